@@ -91,6 +91,7 @@ type RunDesc struct {
 	Tasks     [][]Op    `json:"tasks"`
 	// replay files only
 	Pair       *RunDesc `json:"pair,omitempty"` // C15 cross-process findings: a second history, executed in its own process
+	Build      string `json:"build,omitempty"` // which build found it: "", "race", "race-stockpool"
 	Expect     string `json:"expect,omitempty"`
 	Reproduced string `json:"reproduced,omitempty"`
 	Note       string `json:"note,omitempty"`
